@@ -31,6 +31,7 @@ fn main() {
             match args.get(2).map(|s| s.as_str()) {
                 Some("C04") => checks::check_c04(tier),
                 Some("C03") => checks::check_c03(tier),
+                Some("C17") => checks::check_c17(tier),
                 _ => {
                     eprintln!("unknown property");
                     2
